@@ -1409,6 +1409,27 @@ def register_all(M):
     IT = r"<.* as (?:Iterator|DoubleEndedIterator|IntoIterator)>"
     M.add(IT + r"::next", it_next)
     M.add(IT + r"::next_back", it_next_back)
+
+    def it_fold(c, m, a):
+        it = it_of(a[0])
+        acc = a[1]
+        while True:
+            v = it.next(c)
+            if v is None:
+                return acc
+            acc = c.call_callable(a[2], [acc, v])
+    M.add(IT + r"::fold::<.*>", it_fold)
+
+    def it_max(c, m, a):
+        it = it_of(a[0])
+        best = None
+        while True:
+            v = it.next(c)
+            if v is None:
+                break
+            best = v if best is None else usize_max(c, None, [best, v])
+        return none() if best is None else some(best)
+    M.add(IT + r"::max", it_max)
     M.add(IT + r"::into_iter", lambda c, m, a: to_iter(c, a[0]))
     M.add(IT + r"::by_ref", lambda c, m, a: a[0])
     M.add(IT + r"::rev", lambda c, m, a: RevIt(it_of(a[0])))
@@ -1599,6 +1620,13 @@ def register_all(M):
     M.add(r"<(?:usize|u8|u16|u32|u64|i32|i64|isize) as (Add|Sub|Mul)<&(?:usize|u8|u16|u32|u64|i32|i64|isize)>>::(?:add|sub|mul)|<&(?:usize|u64|i32) as (Add|Sub|Mul)<&?(?:usize|u64|i32)>>::(?:add|sub|mul)",
           lambda c, m, a: c.binop(m.group(1) or m.group(2), deref(a[0]), deref(a[1])))
     M.add(r"<usize as Ord>::max|std::cmp::max::<usize>|core::cmp::Ord::max", usize_max)
+
+    def sat_sub(c, m, a):
+        x, y = deref(a[0]), deref(a[1])
+        if x.concrete and y.concrete:
+            return mk_int(max(0, x.v - y.v), x.ty)
+        return mk_int(z3.If(z3.UGE(x.z(), y.z()), x.z() - y.z(), z3.BitVecVal(0, INT_BITS[x.ty])), x.ty)
+    M.add(r"core::num::<impl (?:usize|u8|u16|u32|u64)>::saturating_sub", sat_sub)
     M.add(r"<usize as Ord>::min|std::cmp::min::<usize>", usize_min)
 
     def from_str_radix(c, m, a):
